@@ -37,7 +37,7 @@ Inductive swrite :=
 Definition spec_step (s : spec) (w : swrite) : option spec :=
   match w with
   | SVote v =>
-    if opair_leb (sp_vote s) (Some v)
+    if ovote_accepts (sp_vote s) v
     then Some (mkSpec (Some v) (sp_entries s) (sp_committed s) (sp_purged s) (sp_user s))
     else None
   | SEntry id p =>
